@@ -1,4 +1,5 @@
 """Job makers for the event-stream properties C04-C09 (C01 has its own module)."""
+import os
 from .. import util, gen, pat, scripts, stream, model
 from . import lib
 
@@ -33,6 +34,15 @@ def base_case(chk, rng, prof):
 
 def rotate(i, seq):
     return seq[i % len(seq)]
+
+
+def flavour4(i, tb=""):
+    """Flavour rotation of the makers whose operations the C++ driver offers as well: every
+    seventh case goes through the C++ scanner class (except with -CF, which flex documents
+    as unusable with -+)."""
+    if i % 7 == 6 and "F" not in tb:
+        return "cxx"
+    return FLAV3[i % len(FLAV3)]
 
 
 # ---------------------------------------------------------------------------- C04
@@ -82,7 +92,7 @@ def c04_job(chk, rng, i):
     inter = rotate(i // 2, [None, True, False])
     if ("f" in tb or "F" in tb) and inter is True:
         inter = False       # documented: -Cf/-CF cannot be interactive
-    fl = rotate(i, FLAV3)
+    fl = flavour4(i, tb)
     # %array: the token is copied into yytext[], NUL bytes included
     array = (i % 5 in (1, 3))
     cfg = {"flavour": fl, "flexargs": lib.tables_args(tb, p["bits"]),
@@ -173,9 +183,11 @@ def c05_job(chk, rng, i):
         s = b"".join(parts) + g.make_input(case, ctx, maxlen=40)
         inputs.append({"sources": [s], "sched": [0]})
     case["budget"] = {"events": 900}
-    fl = rotate(i, FLAV3)
-    cfg = {"flavour": fl, "flexargs": ()}
-    feats = ["scs>40"] if big else []
+    # the start-state tables differ per representation (yy_start_state_list for -CF)
+    tb = rotate(i // 2, ["", "-CFe", "-Cem", "-Cfe", "-C", "-CF", "-Ca", "-Cf"])
+    fl = flavour4(i, tb)
+    cfg = {"flavour": fl, "flexargs": lib.tables_args(tb, 8)}
+    feats = (["scs>40"] if big else []) + ["tables:" + (tb or "default")]
     return {"case": case, "configs": [cfg], "inputs": inputs, "features": feats}
 
 
@@ -252,7 +264,7 @@ def c06_job(chk, rng, i):
     for r in case["rules"]:
         r.pop("_fixed", None)
     tb = rotate(i // 3, ["", "-Cem", "-Ce", "-C", "-Cm", "-Cfe", "-CFe", "-Ca"])
-    fl = rotate(i, FLAV3)
+    fl = flavour4(i, tb)
     cfg = {"flavour": fl, "flexargs": lib.tables_args(tb, 8)}
 
     def expect_build(cfg, built):
@@ -302,7 +314,7 @@ def c07_job(chk, rng, i):
         s = g.make_input(case, ctx, maxlen=50)
         inputs.append({"sources": [s], "sched": rng.choice([[0], [1], [3], [2, 5]])})
     case["budget"] = {"events": 1500}
-    fl = rotate(i, FLAV3)
+    fl = flavour4(i)
     tb = rotate(i // 3, ["", "-Cem", "-Ce", "-C", "-Cm", "-Ca"])
     cfg = {"flavour": fl, "flexargs": lib.tables_args(tb, 8),
            "opts": {"bufsize": rng.choice([None, None, 64, 256])}}
@@ -338,7 +350,7 @@ def c08_job(chk, rng, i):
         inputs.append({"sources": srcs, "sched": rng.choice([[0], [1], [1], [2, 3], [7]])})
     case["wrap"] = [("next", j) for j in range(1, nsrc)]
     case["budget"] = {"events": 700}
-    fl = rotate(i, FLAV3)
+    fl = flavour4(i) if not array else rotate(i, FLAV3)     # (no %array in C++)
     cfg = {"flavour": fl, "flexargs": (), "opts": {"array": array}}
     if array and rng.chance(40):
         cfg["opts"]["yylmax"] = 512
@@ -387,8 +399,8 @@ def c09_job(chk, rng, i):
     for k in range(12):
         s = g.make_input(case, ctx, maxlen=80)
         inputs.append({"sources": [s], "sched": rng.choice([[0], [1], [3]])})
-    fl = rotate(i, FLAV3)
     tb = rotate(i // 3, ["", "-Cem", "-C", "-Cfe", "-CFe"])
+    fl = flavour4(i, tb)
     if case["opts"].get("uses_reject") and ("f" in tb or "F" in tb):
         tb = ""
     cfg = {"flavour": fl, "flexargs": lib.tables_args(tb, 8),
